@@ -119,9 +119,13 @@ impl Iterator for AnsiElementIterator<'_> {
             return Some(element);
         }
 
-        if self.text_length > 0 {
+        // End of input: also emit trailing bytes of an incomplete sequence as text, so that
+        // the elements always cover the whole string.
+        if self.text_length > 0 || self.start < self.pos {
             self.text_length = 0;
-            return Some(Element::Text(self.start, self.pos));
+            let start = self.start;
+            self.start = self.pos;
+            return Some(Element::Text(start, self.pos));
         }
 
         None
